@@ -19,20 +19,21 @@ namespace Cello.Thr
 /-- **Frame.** Whatever one thread does — allocate, collect, throw, catch, set thread-local values, lock, join — the
     component of every *other* thread `u` (its collector registry, exception record, thread-local table, ledger of
     finalised objects, published cell) is untouched.  The only thing another thread can do to `u` is to start it
-    (`spawn`: phase `unborn` → `ready`, nothing else changes). -/
+    (`spawn`: phase `unborn` → `ready`, or `done` → `ready` when a joined Thread object is called again; nothing else changes). -/
 theorem C13_frame (cfg : Cfg) (g : G) (e : Ev) (u : Tid) (hu : e.tid ≠ u) :
     (step cfg g e).1.thr u = g.thr u ∨
-    ((∃ t, e = .spawn t u) ∧ (g.thr u).phase = .unborn ∧ (step cfg g e).1.thr u = { g.thr u with phase := .ready }) := by
+    ((∃ t, e = .spawn t u) ∧ ((g.thr u).phase = .unborn ∨ (g.thr u).phase = .done) ∧
+      (step cfg g e).1.thr u = { g.thr u with phase := .ready }) := by
   cases e with
   | loc t op =>
     left; rw [step_loc]
     have : u ≠ t := fun h => hu (by simp [Ev.tid, h])
     simp [upd_other _ _ _ _ this]
   | spawn t v =>
-    rcases step_spawn cfg g t v with ⟨_, hph, hg⟩ | ⟨_, hg⟩
+    rcases step_spawn cfg g t v with ⟨_, hph, hthr⟩ | ⟨_, hg⟩
     · by_cases hvu : v = u
-      · subst hvu; right; exact ⟨⟨t, rfl⟩, hph, by rw [hg]; simp [upd_same]⟩
-      · left; rw [hg]; have : u ≠ v := fun h => hvu h.symm
+      · subst hvu; right; exact ⟨⟨t, rfl⟩, hph, by rw [hthr]; simp [upd_same]⟩
+      · left; rw [hthr]; have : u ≠ v := fun h => hvu h.symm
         simp [upd_other _ _ _ _ this]
     · left; rw [hg]
   | join t w => left; rw [(step_sync_frame cfg g (.join t w) (by intros; simp) (by intros; simp)).1]
@@ -131,21 +132,25 @@ theorem C13_counter_exact (cfg : Cfg) (m c : Nat) (s : List Ev) (hD : Disc cfg m
   simpa [G.init] using h
 
 /-- **C13 join.** If `join u` returns (`joined`) at some point of a schedule, then thread `u` had finished
-    `Thread_Init_Run` (function and teardown) before, and in every continuation no event of `u` ever happens again
-    (each is recorded `dead`): every step of `u` precedes the return of `join u`. -/
+    `Thread_Init_Run` (function and teardown) before, and in every continuation in which the Thread object is not
+    called again no event of `u` ever happens (each is recorded `dead`): every step of that run of `u` precedes the
+    return of `join u`. -/
 theorem C13_join (cfg : Cfg) (s1 s2 : List Ev) (t u : Tid)
-    (hj : (step cfg (run cfg s1 G.init).1 (.join t u)).2 = .joined) :
+    (hj : (step cfg (run cfg s1 G.init).1 (.join t u)).2 = .joined)
+    (hns : ∀ e ∈ s2, ∀ t', e ≠ .spawn t' u) :
     ((run cfg s1 G.init).1.thr u).phase = .done ∧
     ∀ eo ∈ (run cfg s2 (step cfg (run cfg s1 G.init).1 (.join t u)).1).2, eo.1.tid = u → eo.2 = .dead := by
   obtain ⟨hd, hthr⟩ := step_join_joined cfg _ t u hj
   refine ⟨hd, ?_⟩
-  exact (run_done cfg u s2 _ (by rw [hthr]; exact hd)).2
+  exact (run_done cfg u s2 hns _ (by rw [hthr]; exact hd)).2
 
 /-- **join publishes.** After `join u` has returned, every read of `u`'s published cell — by any thread, at any later
-    point of any continuation — yields the value `u` had written last, which is the value of `u`'s solo run; and
-    `u`'s component (ledger of finalised objects, thread-local table …) is final: nothing changes it any more. -/
+    point of any continuation (until the Thread object is called again) — yields the value `u` had written last, which
+    is the value of `u`'s solo run; and `u`'s component (ledger of finalised objects, thread-local table …) is final:
+    nothing changes it any more. -/
 theorem C13_join_publishes (cfg : Cfg) (s1 s2 : List Ev) (t u : Tid)
-    (hj : (step cfg (run cfg s1 G.init).1 (.join t u)).2 = .joined) :
+    (hj : (step cfg (run cfg s1 G.init).1 (.join t u)).2 = .joined)
+    (hns : ∀ e ∈ s2, ∀ t', e ≠ .spawn t' u) :
     let g1 := (run cfg s1 G.init).1
     let alone := (solo cfg u (proj u (run cfg s1 G.init).2) [] (G.init.thr u)).1
     g1.thr u = alone ∧
@@ -155,9 +160,9 @@ theorem C13_join_publishes (cfg : Cfg) (s1 s2 : List Ev) (t u : Tid)
   have hal := (C13_noninterference_from_start cfg s1 u).1
   have hd' : (((step cfg (run cfg s1 G.init).1 (.join t u)).1).thr u).phase = .done := by rw [hthr]; exact hd
   refine ⟨hal, ?_, ?_⟩
-  · rw [(run_done cfg u s2 _ hd').1, hthr]; exact hal
+  · rw [(run_done cfg u s2 hns _ hd').1, hthr]; exact hal
   · intro eo hmem r he
-    have := run_rd_frozen cfg u s2 _ hd' eo hmem r he
+    have := run_rd_frozen cfg u s2 hns _ hd' eo hmem r he
     rw [hthr, hal] at this
     exact this
 
@@ -315,6 +320,16 @@ example :
     (proj 1 (run cfgNow demoJoin G.init).2).length = 10 ∧
     localOuts 1 (run cfgNow demoJoin G.init).2 = (solo cfgNow 1 (proj 1 (run cfgNow demoJoin G.init).2) [] TS.unborn).2 := by
   refine ⟨by decide, by decide, by decide, by decide, by decide, rfl⟩
+
+/-- a Thread object is called, joined, called again and joined again: the second run keeps the thread-local table and
+    the ledger of the first, gets a fresh collector, and `join` waits for the second run too -/
+example :
+    ((run cfgNow [.spawn 0 1, .loc 1 .begin_, .loc 1 (.new 1 false false), .loc 1 (.new 2 true false), .loc 1 (.tset "r" ⟨1, 2⟩),
+                  .loc 1 .end_, .spawn 0 1, .join 0 1, .spawn 0 1, .join 0 1, .loc 1 .begin_, .loc 1 (.tget "r"),
+                  .loc 1 (.del ⟨1, 2⟩), .loc 1 (.new 3 false false), .loc 1 .end_, .join 0 1, .join 0 1] G.init).2.map
+        (fun eo => eo.2.show))
+      = ["spawned", "begun depth=0 gc=1 exc=1", "ok", "ok", "ok", "fin=[1] garbage=0", "bad", "joined", "spawned", "blocked",
+         "begun depth=0 gc=1 exc=1", "val=1.2", "fin=0", "ok", "fin=[1,3] garbage=0", "joined", "ub"] := by decide
 
 /-- the hypotheses of `C13_exn_isolated` hold for a running thread and a nested program -/
 example :
